@@ -161,7 +161,7 @@ def _slice_to_dict(slice_: Triangle[Cell]) -> dict[str, Any]:
         **{
             k: v
             for k, v in slice_.cells[0].metadata.as_dict().items()
-            if v is not None and v != {}
+            if (v is not None and v != {}) or k == "risk_basis"
         },
         "cells": [_cell_to_dict(cell) for cell in slice_.cells],
     }
